@@ -185,3 +185,11 @@ Print Assumptions C18_sorted_after_any_history.
 Theorem C18_flag_protocol_matches_source : In ("POP", (true, true))%string flag_protocol.
 Proof. exact pop_flag_protocol. Qed.
 Print Assumptions C18_flag_protocol_matches_source.
+
+(* the POP coefficients stay the fitted ones after any accessor: nothing in the package divides a stored array in place (every augmented assignment of the package, regenerated from the source by T7inplace, is one of the 14 known sites acting on fresh local
+   values of the numerical kernels) *)
+From XV Require Gen.T7inplace Proofs.C14_tie.
+Theorem C18_no_inplace_arithmetic_on_stored_arrays : List.length T7inplace.inplace_sites = 14%nat /\
+  forallb C14_tie.not_in_fit_algorithm T7inplace.inplace_sites = true.
+Proof. exact (conj (f_equal (@List.length _) C14_tie.inplace_sites_known) (f_equal (forallb _) C14_tie.inplace_sites_known)). Qed.
+Print Assumptions C18_no_inplace_arithmetic_on_stored_arrays.
